@@ -660,6 +660,12 @@ func (encryptor *QueryDataEncryptor) encryptValuesWithPlaceholders(ctx context.C
 		if !schema.NeedToEncrypt(columnName) {
 			continue
 		}
+		if valueIndex < 0 || valueIndex >= len(oldValues) {
+			// the Bind message carries fewer values than the statement has placeholders: the database will refuse it
+			logrus.WithFields(logrus.Fields{"index": valueIndex, "column": columnName, "values": len(oldValues)}).
+				Warning("Invalid placeholder index")
+			return oldValues, false, base.ErrInvalidPlaceholder
+		}
 
 		// Allocate the result slice only if there are some values that need encryption.
 		// Otherwise we'll just return the original old one.
